@@ -161,6 +161,9 @@ class Orchestrator:
                     f"Skipping strategy: {strategy.name} on CV-fold: "
                     f"{cv_fold} of dataset: {dataset.name}"
                 )
+                # existing results still belong to this run's results object, so
+                # that they can be loaded after resuming an interrupted run
+                self.results._append_key(strategy.name, dataset.name)
                 continue
 
             # split data into training and test sets
